@@ -25,17 +25,26 @@
       text is `x[2.0]`.  The mini-C has no float literal in `CExpr`; on that program the model's
       `compL` answers `raise:simplify_cir:float` (`f10_compL_raises`): the program is OUTSIDE every
       theorem here, which is exactly where the real compiler emits invalid C.
-  NOT PROVED (kept explicit): `compL_welltyped`:  `compL Γ ss = .ok (cs, Γ')` for well-formed
-      LoopIR (`Exo.Wf.wfL`-style scoping) ⟹ `wtC (tyEnvOf Γ) cs`.  It needs (i) the leaves of
-      `comp_cir(simplify_cir(lift_to_cir e))` are leaves of `e` (a `simplify` lemma of the size of
-      `CIndex_simplify_rel`), (ii) an invariant between the flat `envtyp` and C's scopes under the
-      LoopIR scoping hypothesis.  Instead `wtFun` is COMPUTED by the tie for every compiled
-      procedure (driver field `"wtC"`, `ccstmt.check_proc_full(p)["wtC"]`): 84 of 84 covered
-      procedures of the self-test are well-typed.
+    * `compL_welltyped_partial` — `compL Γ ss = ok (cs, Γ')`, the LoopIR is well-formed
+      (`Exo.Wf.wfL W ss = some W'`: C04's scoping / rank checker), `Agree W Γ E` (every
+      LoopIR-visible symbol is C-visible with the type the compiler's `envtyp` implies, nothing else
+      is C-visible, …) and the config uses are consistent ⟹ `wtL E cs = some E'` with
+      `Agree W' Γ' E'`.  Pieces: `simplify_leaves` (every identifier leaf of `simplify_cir c` is a
+      leaf of `c`), `wtCE_compAst`, `lift_leaves`, `strides_wt`, `accessLV_wt`, `compC_wt`,
+      `compD_wt`, `windowFields_wt`, and the invariant between the flat `envtyp` and C's nested
+      scopes (`Agree`, `Stable`, `Agree.declare`; no global distinctness of binders is needed:
+      `Wf`'s `fresh` at each declaration suffices).
+      PARTIAL: statement lists WITHOUT calls (`noCallL`); for calls the typing of the actuals
+      (`wtArgs`) and of the callee under `Wf.wfP` is not proved — `wtFun` is still computed for
+      them by the tie and kernel-checked on `ex3`.
+    * `compiled_never_stuck_partial` — pure typing argument: compiled code of well-formed LoopIR,
+      started in ANY state that agrees with the typing environment, is never `stuck`, WITHOUT
+      assuming that the reference run succeeds (same restriction: no calls).
   IGNORED by the judgement: `const` (finding F9), precision casts, `#pragma omp`, `EXO_ASSUME`,
   integer widths, the C identifiers (`new_varname` layer; the tree binds `Sym`s).
 -/
 import ExoModel.Lemmas.CTypingSoundStmt
+import ExoModel.Lemmas.CTypedMain
 import ExoModel.Props.C02Stmt
 
 namespace Exo.CTyping.C15Stmt
@@ -62,6 +71,34 @@ theorem wtFun_body_never_stuck {V : Type} [DataAlg V] (mon : Bool) {ps : List (S
   have h := (soundL mon cs hE' hg).bind (E2 := tyEnvOfParams ps cs)
     (fun c1 h1 => leaveC_ns mon hg.1 (by
       have := h1.2; rw [wtL_cfgT cs hE'] at this; exact this))
+  simp only [execCB]
+  cases hr : (execCL mon cs c >>= fun c' => leaveC mon c c') with
+  | error e => rw [hr] at h; exact fun he => h (by cases he; rfl)
+  | ok c1 => exact fun he => by cases he
+
+/-- **`compL` of well-formed LoopIR is well-typed mini-C.**
+    PARTIAL: statement lists without calls. -/
+theorem compL_welltyped_partial {Γ Γ' : CEnv} {ss : List Stmt} {cs : List CStmt}
+    {W W' : Wf.Env} {E : CTyEnv} (hc : compL Γ ss = .ok (cs, Γ'))
+    (hwf : Wf.wfL W ss = some W') (hnc : noCallL ss = true) (ha : Agree W Γ E)
+    (hcfg : CfgOK E.cfgT (cfgL cs)) :
+    ∃ E', wtL E cs = some E' ∧ Agree W' Γ' E' ∧ E'.cfgT = E.cfgT := by
+  obtain ⟨E', h1, h2, _, h3, _⟩ := typedL ss hc hwf hnc ha hcfg
+  exact ⟨E', h1, h2, h3⟩
+
+/-- **compiled code never gets stuck** — a pure typing argument (no reference run is assumed to
+    succeed): for a compiled body of well-formed LoopIR, from any C state that agrees with the
+    typing environment (`Good`: pointers / structs / scalars bound to values of their kind, config
+    fields hold values of their kind), with or without the allocation monitors.
+    PARTIAL: no calls (see `compL_welltyped_partial`). -/
+theorem compiled_never_stuck_partial {V : Type} [DataAlg V] (mon : Bool) {Γ Γ' : CEnv}
+    {ss : List Stmt} {cs : List CStmt} {W W' : Wf.Env} {E : CTyEnv} {c : CState V}
+    (hc : compL Γ ss = .ok (cs, Γ')) (hwf : Wf.wfL W ss = some W') (hnc : noCallL ss = true)
+    (ha : Agree W Γ E) (hcfg : CfgOK E.cfgT (cfgL cs)) (hg : Good E c) :
+    execCB mon cs c ≠ .error .stuck := by
+  obtain ⟨E', hE', _, hcT⟩ := compL_welltyped_partial hc hwf hnc ha hcfg
+  have h := (soundL mon cs hE' hg).bind (E2 := E)
+    (fun c1 h1 => leaveC_ns mon hg.1 (by have := h1.2; rw [hcT] at this; exact this))
   simp only [execCB]
   cases hr : (execCL mon cs c >>= fun c' => leaveC mon c c') with
   | error e => rw [hr] at h; exact fun he => h (by cases he; rfl)
@@ -104,6 +141,76 @@ theorem exGood : Good (tyEnvOfParams (paramsOf exProc.args) ex3Cs) exC := by
 
 example : execCB true ex3Cs exC ≠ .error .stuck :=
   wtFun_body_never_stuck true ex3_welltyped exGood
+
+/-! ### `compL_welltyped_partial` / `compiled_never_stuck_partial` on `exBody` -/
+
+/-- the LoopIR scoping environment of the signature `ex(n: size, x: f32[n], y: f32[n])` -/
+def exW : Wf.Env := Wf.formalsEnv exProc.args
+def exE : CTyEnv := tyEnvOfParams (paramsOf exProc.args) exCs
+
+theorem exWf : (Wf.wfL exW exBody).isSome = true := by decide +kernel
+theorem exNoCall : noCallL exBody = true := by decide
+
+theorem exAgree : Agree exW exΓ exE := by
+  have three : ∀ a, Wf.lookup a exW ≠ none → a = C02Stmt.n ∨ a = C02Stmt.x ∨ a = C02Stmt.y := by
+    intro a h
+    by_cases h1 : a = C02Stmt.n
+    · exact Or.inl h1
+    · by_cases h2 : a = C02Stmt.x
+      · exact Or.inr (Or.inl h2)
+      · by_cases h3 : a = C02Stmt.y
+        · exact Or.inr (Or.inr h3)
+        · exact absurd (by simp [exW, Wf.formalsEnv, exProc, Proc.args, Wf.lookup, h1, h2, h3]) h
+  refine ⟨fun a k h => ?_, fun a h => ?_, fun a h => ?_, fun a sh h ht e he z hz => ?_,
+    fun a n m h ht => ?_⟩
+  · rcases three a (by rw [h]; simp) with rfl | rfl | rfl <;> decide +kernel
+  · by_cases h1 : a = C02Stmt.n
+    · subst h1; decide +kernel
+    · by_cases h2 : a = C02Stmt.x
+      · subst h2; decide +kernel
+      · by_cases h3 : a = C02Stmt.y
+        · subst h3; decide +kernel
+        · exact absurd (by
+            simp [exE, tyEnvOfParams, CTyEnv.get, lookupSc, paramsOf, exProc, Proc.args, lookupSym,
+              h1, h2, h3]) h
+  · have : exΓ.refs = [] := by decide +kernel
+    rw [this] at h; simp at h
+  · rcases three a h with rfl | rfl | rfl
+    · have : lookupSym C02Stmt.n exΓ.typ = some .idx := by rfl
+      rw [this] at ht; cases ht
+    · have : lookupSym C02Stmt.x exΓ.typ = some (.tensor [.var C02Stmt.n]) := by rfl
+      rw [this] at ht
+      simp only [Option.some.injEq, Ty.tensor.injEq] at ht; subst ht
+      simp only [List.mem_singleton] at he; subst he
+      simp only [Range.IExpr.vars, List.mem_singleton] at hz; subst hz
+      exact ⟨by decide +kernel, by rfl⟩
+    · have : lookupSym C02Stmt.y exΓ.typ = some (.tensor [.var C02Stmt.n]) := by rfl
+      rw [this] at ht
+      simp only [Option.some.injEq, Ty.tensor.injEq] at ht; subst ht
+      simp only [List.mem_singleton] at he; subst he
+      simp only [Range.IExpr.vars, List.mem_singleton] at hz; subst hz
+      exact ⟨by decide +kernel, by rfl⟩
+  · rcases three a (by rw [h]; simp) with rfl | rfl | rfl
+    · have : lookupSym C02Stmt.n exΓ.typ = some .idx := by rfl
+      rw [this] at ht; cases ht
+    · have : lookupSym C02Stmt.x exΓ.typ = some (.tensor [.var C02Stmt.n]) := by rfl
+      rw [this] at ht; cases ht
+    · have : lookupSym C02Stmt.y exΓ.typ = some (.tensor [.var C02Stmt.n]) := by rfl
+      rw [this] at ht; cases ht
+
+theorem exCfgOK : CfgOK exE.cfgT (cfgL exCs) := by
+  have : cfgL exCs = [] := by decide +kernel
+  rw [this]; intro p hp; cases hp
+
+example : ∃ E', wtL exE exCs = some E' := by
+  obtain ⟨W', hW'⟩ := Option.isSome_iff_exists.1 exWf
+  obtain ⟨E', h, _⟩ := compL_welltyped_partial exHc hW' exNoCall exAgree exCfgOK
+  exact ⟨E', h⟩
+
+/-- no reference run is mentioned: ANY state that agrees with the signature's typing environment -/
+example (c : CState Int) (hg : Good exE c) (mon : Bool) : execCB mon exCs c ≠ .error .stuck := by
+  obtain ⟨W', hW'⟩ := Option.isSome_iff_exists.1 exWf
+  exact compiled_never_stuck_partial mon exHc hW' exNoCall exAgree exCfgOK hg
 
 /-! ## rejected -/
 
